@@ -205,7 +205,13 @@ func subject(rng *rand.Rand, tree nodeh.TreeSpec, ns []flatNode, me, typ, from, 
 	case 1:
 		wire = rng.Intn(nodeh.NServers)
 	}
-	sub := nodeh.Msg{Inst: 0, From: from, OtherTree: rng.Intn(8) == 0, Peer: peer, Wire: wire, Type: typ, Payload: 1, Route: route}
+	// the sender token may name ANOTHER tree the receiver knows (hosted by the outsider and the
+	// root's server): the node must still be looked up in the instance's own tree
+	other := rng.Intn(4) == 0
+	if from == nodeh.FromOtherTree {
+		other = rng.Intn(2) == 0
+	}
+	sub := nodeh.Msg{Inst: 0, From: from, OtherTree: other, Peer: peer, Wire: wire, Type: typ, Payload: 1, Route: route}
 	var msgs []nodeh.Msg
 	f := int64(100)
 	add := func(m nodeh.Msg) {
@@ -585,7 +591,15 @@ func corpus() []interface{} {
 	tcp := mk(0, nodeh.TH1, "table/sender-member/handler-single")
 	tcp.Net = "tcp"
 	tcp.Msgs[0].Wire = 0 // the wire message's own identity field names the root's server
+	// the outsider hosts a node of a second tree the receiver knows and names that tree in its sender token
+	foreign := mk(nodeh.FromOtherTree, nodeh.TH1, "table/sender-othertree/handler-single")
+	foreign.Msgs[0].Peer, foreign.Msgs[0].OtherTree = nodeh.Outsider, true
+	// the root's server is in both trees: its token names the other tree, the node handed over must be this tree's
+	both := mk(0, nodeh.TC1, "table/sender-member/channel-single")
+	both.Insts, both.Msgs[0].Peer, both.Msgs[0].OtherTree = []int{1}, 0, true
+	both.Msgs[1].From = 0
 	return []interface{}{
+		foreign, both,
 		// a member claiming to be the root over a real TCP connection is refused
 		tcp,
 		// F02 (Node/VerifyProofs.v placeholder_refuted): member 1 names a node id that is not in the tree
